@@ -35,22 +35,31 @@ if __name__ == "__main__":
 
 import vlib
 from checks import c02
+import translate_disasm as tdis
 
 PROP = "C05"
-MODULE = "Proofs.C05"
+MODULE = "Proofs.C05All"
 A = "Teakra.Asm."
 C = "Teakra.CDo."
 THEOREMS = [A + t for t in [
     "parse_eq_firstWith", "parse_build_first", "parse_roundtrip", "parse_invalid", "build_ok_or_assert",
     "build_assert_iff", "parse_generate_least", "generate_assert_iff", "assemble_disasm",
     "assemble_disasm_text"]] + [C + t for t in [
-        "cDo_bounds", "cDo_zero_out_of_bounds", "cDo_no_nul_after_text", "cDo_eq_fixed_of_tight"]]
+        "cDo_bounds", "cDo_zero_out_of_bounds", "cDo_no_nul_after_text", "cDo_eq_fixed_of_tight"]] + ["Teakra." + t for t in [
+            # the disassembler model translated from disassembler.cpp (Generated/DisasmTable.lean) over the shared look-up
+            "instr_unique", "decodeInstr_eq_of_matches", "free_bit_irrelevant", "freeBits_are_unused",
+            "decode_extract_unused", "text_unused_irrelevant", "handler_unused_irrelevant",
+            "text_second_word_only_if_expanded", "expanded_iff_field16"]]
 TRUSTED = [
-    "the token text of src/disassembler.cpp is NOT modelled in Lean: the parser theorems hold for every token "
-    "function, and the one fact needed about the real one (SameTextOnlyUnused + NeedFromTable: a finite table over "
-    "65536 first words) is re-established on every run by complete enumeration of the real "
-    "Disassembler::GetTokenList/NeedExpansion (checks/c05.py part 1) against the translated decode table of C02 - a "
-    "test by complete enumeration, not a theorem about disassembler.cpp",
+    "the token text of src/disassembler.cpp is translated into Lean on every run (tools/translate_disasm.py -> "
+    "Generated/DisasmTable.lean: 329 of the 331 visitor methods and the 12 enum->text tables are interpreted, the rest - "
+    "ToHex, immediates/memory operand printers, Mul, PA, ar/arp printers, banke, mov(Register,Bx), GetTokenList, Do - is "
+    "hand-modelled in TeakraModel/Disasm.lean and pinned by a hash of the source text); the model is compared with the real "
+    "GetTokenList/Do/NeedExpansion on every first word x sampled second words x sampled ArArpSettings on every run. "
+    "Proved over it: unused bits never change text / need / handler call. NOT proved in Lean: 'two opcodes print the same "
+    "text only if they differ in unused bits' (the converse direction) - that finite fact over 65536 first words and "
+    "NeedFromTable are re-established on every run by complete enumeration of the real code (checks/c05.py part 1) "
+    "against the translated decode table of C02 - a test by complete enumeration, not a theorem",
     "hand-written models lean/TeakraModel/Asm.lean (src/parser.cpp) and lean/TeakraModel/CDo.lean "
     "(src/disassembler_c.cpp), tied by feeding the real 65536 entries to the model parser and by the `cdo` runs",
     "the decode table and its theorems (C02: tools/translate_decode.py, exhaustive `dec` run)",
@@ -72,8 +81,11 @@ SEP = "    "   # Disassembler::Do joins with four blanks
 
 
 def regenerate():
-    """The decode table the grouping is judged against must be that of the tree under test."""
-    return c02.regenerate()
+    """The decode table the grouping is judged against must be that of the tree under test; the disassembler's token
+    table is re-translated from the tree under test."""
+    st = c02.regenerate()
+    st["disasm"] = tdis.run_checked(vlib.REPO, vlib.ROOT)
+    return st
 
 
 # ----------------------------------------------------------------------------- protocol helpers
@@ -902,6 +914,42 @@ def part_firmware(pair, tools, violations, ev):
     return evals
 
 
+# ----------------------------------------------------------------------------- part 1b: the translated Lean disassembler
+
+def part_dismodel(pair, rng, tier, violations, ev):
+    """Generated/DisasmTable.lean (translated from disassembler.cpp) against the real GetTokenList / Do / NeedExpansion:
+    every first word x second words {0, ffff, random...} x one random ArArpSettings (two in the thorough tier)."""
+    t0 = time.time()
+    nsec = 2 if tier == "quick" else 6
+    scripts = []
+    for w in range(65536):
+        secs = [0, 0xFFFF] + [rng.bits(16) for _ in range(nsec)]
+        s = ["dis reset"] + ["dis tok %x %x" % (w, e) for e in secs] + ["dis need %x" % w, "dis do %x %x" % (w, secs[-1])]
+        for _ in range(1 if tier == "quick" else 2):
+            s.append("dis tok %x %x %s" % (w, rng.bits(16), " ".join("%x" % rng.bits(16) for _ in range(6))))
+        scripts.append(s)
+    a, ca = vlib.run_scripts(pair.impl, scripts)
+    b, cb = vlib.run_scripts(pair.model, scripts)
+    n = sum(len(s) for s in scripts)
+    if ca or cb:
+        i, err = (ca or cb)[0]
+        violations.append(("%s died on the disassembler script of opcode 0x%04x: %s" % ("harness" if ca else "model driver", i, err[-300:]),
+                           {"kind": "crash", "script": scripts[i], "stderr": err}, bool(ca)))
+        return n
+    bad = [w for w in range(65536) if a[w] != b[w]]
+    ev["part1b_disasm_model"] = {"first_words": 65536, "lines_compared": n, "mismatching_first_words": len(bad),
+                                 "wall_s": round(time.time() - t0, 2)}
+    for w in bad[:2]:
+        k = [i for i in range(len(scripts[w])) if a[w][i] != b[w][i]][0]
+        violations.append((
+            "the Lean disassembler model translated from disassembler.cpp (theorems text_unused_irrelevant, "
+            "text_second_word_only_if_expanded are about it) differs from the real code on `%s`: impl %r, model %r (%d first words differ)"
+            % (scripts[w][k], a[w][k], b[w][k], len(bad)),
+            {"kind": "c05", "part": "dismodel", "impl_script": ["dis reset", scripts[w][k]],
+             "model_script": ["dis reset", scripts[w][k]], "expect": [{"model_eq_impl": [1, 1]}]}, False))
+    return n
+
+
 # ----------------------------------------------------------------------------- entry points
 
 def load_table():
@@ -924,6 +972,7 @@ def explore(rng, tier, replay=None):
     p1 = part_tokens(pair, rng.fork("tokens"), tier, data, violations, ev)
     if p1:
         evals += p1["evaluations"]
+    evals += part_dismodel(pair, rng.fork("dismodel"), tier, violations, ev)
     evals += part_cbinding(pair, rng.fork("cbinding"), tier, p1, violations, ev)
     evals += part_firmware(pair, tools, violations, ev)
     bg.shutdown(wait=False)
@@ -933,13 +982,14 @@ def explore(rng, tier, replay=None):
                "against the decode table, every distinct text through the real Parser::Parse and the Lean parser model built from "
                "the same 65536 entries. Parts (2) C binding and (3) firmware are not exhaustive (sampled opcodes x all buffer sizes "
                "0..64; the four shipped sources)",
-           "rule": "(1) every first word: token lists for sampled second words, NeedExpansion (C++ and C), Do = join; grouping by text "
+           "rule": "(1b) the Lean disassembler model translated from disassembler.cpp vs the real GetTokenList/Do/NeedExpansion on every first "
+                   "word x second words x ArArpSettings. (1) every first word: token lists for sampled second words, NeedExpansion (C++ and C), Do = join; grouping by text "
                    "=> SameTextOnlyUnused against the translated decode table; Parse(text) = least opcode of the group with its status on "
                    "the real parser and on the parser model fed with the real entries, plus malformed token lists; second word printed "
                    "verbatim at one place; pinned text. (2) Teakra_Disasm_Do on canary-guarded heap buffers vs the cDo model for dstlen "
                    "0..64 and len-1..len+2. (3) makedsp1 on hwtest/*/firm/source vs data/cdc.bin byte for byte, dsp1_reader on the "
                    "binaries, re-assembly of its text. distinct = distinct renderable texts + error opcodes",
-           "traces_validated_against_impl": evals, "unmodelled": ["token text of src/disassembler.cpp (enumerated, not modelled)"],
+           "traces_validated_against_impl": evals, "unmodelled": [],
            "direct_property_cases": ev, "samples": ev.pop("samples", []), "harness_build_s": pair.build_s,
            "violations": violations}
     return ctx
